@@ -123,6 +123,7 @@ type doer struct {
 	w        *world
 	routes   map[string]route
 	override map[string]*servedList
+	fail     map[string]string // url -> how the endpoint fails at the next request(s)
 	fetches  []fetch
 }
 
@@ -131,6 +132,21 @@ func (d *doer) Do(req *http.Request) (*http.Response, error) {
 	respond := func(code int, body string) (*http.Response, error) {
 		return &http.Response{StatusCode: code, Header: http.Header{"Content-Type": []string{"application/json"}},
 			Body: io.NopCloser(strings.NewReader(body)), Request: req}, nil
+	}
+	if kind := d.fail[u]; kind != "" {
+		d.fetches = append(d.fetches, fetch{u, "fail:" + kind, ""})
+		switch kind {
+		case "http-500":
+			return respond(500, "internal server error")
+		case "network-error":
+			return nil, errors.New("dial tcp: connection refused")
+		default: // truncated-body: the first half of the list the issuing node holds
+			rows := queryRows(d.w.t, d.w.I.sqldb, "SELECT raw FROM status_list_credential WHERE subject_id = ?", u)
+			if len(rows) == 0 {
+				return respond(200, "{")
+			}
+			return respond(200, rows[0][0][:len(rows[0][0])/2])
+		}
 	}
 	if f := d.override[u]; f != nil {
 		d.fetches = append(d.fetches, fetch{u, f.Kind, f.Body})
@@ -326,11 +342,21 @@ type world struct {
 
 	canonCache   string
 	enabledCache []event
+
+	scenario string // first field of violation signatures after the property id (default bfs)
+	replay   any    // replay artefact of the running case when it is not a plain history
 }
 
 func (w *world) violation(clause, class, what string) {
-	w.r.Violation("C11|bfs|"+clause+"|"+class, fmt.Sprintf("%s [start %s, history %v]", what, w.start, w.hist),
-		replayCase{Start: w.start, History: append([]event{}, w.hist...)})
+	scenario := w.scenario
+	if scenario == "" {
+		scenario = "bfs"
+	}
+	var artefact any = replayCase{Start: w.start, History: append([]event{}, w.hist...)}
+	if w.replay != nil {
+		artefact = w.replay
+	}
+	w.r.Violation("C11|"+scenario+"|"+clause+"|"+class, fmt.Sprintf("%s [start %s, history %v]", what, w.start, w.hist), artefact)
 }
 
 const maxIndex = listBits - 1
@@ -344,7 +370,7 @@ func newWorld2(t testing.TB, r *ev.Run, start string, schedPoints, withV bool) *
 	issuer.TimeFunc = vtime.Now
 	w := &world{t: t, r: r, ctx: audit.TestContext(), start: start, m: newModel(), served: map[string]*servedList{},
 		res: &staticResolver{docs: map[string]did.Document{}}, net: &netw{revs: map[string]credential.Revocation{}}, verdict: map[string]int{}}
-	w.http = &doer{w: w, routes: map[string]route{}, override: map[string]*servedList{}}
+	w.http = &doer{w: w, routes: map[string]route{}, override: map[string]*servedList{}, fail: map[string]string{}}
 	w.I = newNode(t, "I", w.res, w.net, w.http, schedPoints)
 	if withV {
 		w.V = newNode(t, "V", w.res, w.net, w.http, false)
@@ -407,6 +433,12 @@ func (w *world) issue(i int, sl bool) {
 	if err != nil {
 		w.t.Fatalf("harness: issuing failed: %v", err)
 	}
+	w.adopt(i, sl, cred)
+}
+
+// adopt registers an issued credential with the model (slot uniqueness is judged here).
+func (w *world) adopt(i int, sl bool, cred *vc.VerifiableCredential) {
+	d := issuerDID(i, sl)
 	mc := &mCred{N: len(w.m.Creds), Issuer: i, SL: sl, ID: cred.ID.String()}
 	if sl {
 		statuses, err := cred.CredentialStatuses()
@@ -537,13 +569,19 @@ func subjectOf(lst *vc.VerifiableCredential) (revocation.StatusList2021Credentia
 // serve asks the issuing node for the list at url u (what its HTTP API does) and judges the served list.
 func (w *world) serve(u string) *servedList {
 	rt := w.http.routes[u]
-	l := w.m.Lists[u]
 	now := vtime.Now()
 	lst, err := w.I.iss.StatusList(w.ctx, rt.DID, rt.Page)
 	if err != nil || lst == nil {
 		w.violation("list-not-served", "serve", fmt.Sprintf("the issuing node cannot serve %s: %v", u, err))
 		return nil
 	}
+	return w.judgeServed(u, lst, now)
+}
+
+// judgeServed judges one list that left the issuing node.
+func (w *world) judgeServed(u string, lst *vc.VerifiableCredential, now time.Time) *servedList {
+	rt := w.http.routes[u]
+	l := w.m.Lists[u]
 	subj, err := subjectOf(lst)
 	if err != nil {
 		w.violation("served-list-malformed", "serve", err.Error())
@@ -913,6 +951,33 @@ func (w *world) attack(kind string) {
 	w.judge(mc, verdict, truth, "verifying")
 }
 
+var outageKinds = []string{"http-500", "network-error", "truncated-body"}
+
+// outage: the endpoint of the list the credential names fails while node V wants to refresh. Whatever V held
+// before is all it knows: the verdict must follow that, and a revoked credential must stay revoked.
+func (w *world) outage(kind string) {
+	mc := w.firstCred(1, true)
+	if mc == nil || w.m.Lists[mc.URL].Tainted {
+		return
+	}
+	before := w.vHeld(mc.URL)
+	truth := before != nil && before.Bits[mc.Index]
+	w.http.fail[mc.URL] = kind
+	w.http.fetches = nil
+	verdict := w.verifyOn(w.V, mc.N)
+	delete(w.http.fail, mc.URL)
+	asked := false
+	for _, f := range w.http.fetches {
+		asked = asked || strings.HasPrefix(f.Kind, "fail:")
+	}
+	w.verdict[fmt.Sprintf("outage %s asked=%v -> %s", kind, asked, verdict)]++
+	after := w.vHeld(mc.URL)
+	if (before == nil) != (after == nil) || (before != nil && before.Body != after.Body) {
+		w.violation("failed-refresh-changed-cache", kind, fmt.Sprintf("the endpoint of %s failed (%s) and node V holds another list afterwards", mc.URL, kind))
+	}
+	w.judge(mc, verdict, truth, "verifying")
+}
+
 // ------------------------------------------------------------------ near-miss signer identifiers
 
 // nearMisses computes, from an issuer DID, the identifiers an attacker would register to pass a sloppy comparison:
@@ -1077,6 +1142,8 @@ func (w *world) apply(e event) {
 		w.forgeRev(e.K)
 	case "attack":
 		w.attack(e.K)
+	case "outage":
+		w.outage(e.K)
 	default:
 		w.t.Fatalf("unknown event %v", e)
 	}
@@ -1131,6 +1198,9 @@ func (w *world) enabled(b bounds) []event {
 	if w.firstCred(1, true) != nil {
 		for _, k := range attackKinds {
 			out = append(out, event{Op: "attack", K: k})
+		}
+		for _, k := range outageKinds {
+			out = append(out, event{Op: "outage", K: k})
 		}
 	}
 	return out
@@ -1209,7 +1279,7 @@ func TestVerifC11BFS(t *testing.T) {
 	r := ev.Start(t, "C11")
 	defer r.Finish()
 	r.Rule("event histories over {issue status-list / nuts credential (2 issuers), revoke(c), deliver nuts revocation(c), check (serve every page + verify every credential on both nodes), " +
-		"advance clock 16m / 19h / 25h, 5 forged revocations, 6 forged lists at the named URL}; network revocations reach node V through the real ambassador receiver under 6 environment answers (fine, key / store time-out or cancellation once, key permanently not found) with redelivery until nothing is pending; " +
+		"advance clock 16m / 19h / 25h, 5 forged revocations, 6 forged lists at the named URL, 3 failures of the list endpoint (HTTP 500, network error, truncated body) at a refresh}; network revocations reach node V through the real ambassador receiver under 6 environment answers (fine, key / store time-out or cancellation once, key permanently not found) with redelivery until nothing is pending; " +
 		"plus once per run: every near-miss of the issuer's did:nuts and did:web identifier (prefixes, extensions, case, other method) x 2 forged shapes from two start states (fresh; issuer 1's page two slots before roll-over), " +
 		"breadth-first with canonical-state de-duplication below every history prefix of length 2; a state is distinct by its canonical form")
 	r.Assume("DID resolution is a static table; JSON-LD, jwx and SQLite are exercised, not modelled; node V and node I share the virtual clock; " +
@@ -1217,6 +1287,12 @@ func TestVerifC11BFS(t *testing.T) {
 
 	var rc replayCase
 	if r.ReplayCase(&rc) {
+		if rc.Start == "external-list" {
+			externalListSweep(t, r)
+			r.States(1)
+			r.Transitions(1)
+			return
+		}
 		if rc.Start == "near-miss" {
 			nearMissSweep(t, r)
 			r.States(1)
@@ -1250,8 +1326,12 @@ func TestVerifC11BFS(t *testing.T) {
 			t.Fatalf("harness: honest nuts history gives verdicts %v", w.verdict)
 		}
 	})
-	if ws, _ := r.Shard(); ws == 0 {
+	ws, nws := r.Shard()
+	if ws == 0 {
 		nearMissSweep(t, r) // bounded-exhaustive input sweep, once per run
+	}
+	if ws == 1%nws {
+		externalListSweep(t, r) // list length x revoked index of a foreign issuer's list, once per run
 	}
 	build(t, r, "seeded", []event{{Op: "issueSL", I: 1}, {Op: "issueSL", I: 1}}, func(w *world) {
 		a, b := w.m.Creds[0], w.m.Creds[1]
